@@ -705,13 +705,63 @@ Proof.
   rewrite (IH base step f g h E). apply IH. exact E.
 Qed.
 
-Theorem method_digests_spec : forall tk ks d states ps,
+(* the shift/mask evaluation used by the digests is the div/mod model *)
+Lemma eval_b_f_eq : forall args b,
+  (match b with BPar _ k => 0 <=? k | BConst _ => true end) = true -> eval_b_f args b = eval_b args b.
+Proof.
+  intros args [v|i k] H; [reflexivity|]. apply Z.leb_le in H. cbn [eval_b_f eval_b].
+  rewrite Z.shiftr_div_pow2 by exact H. change 255 with (Z.ones 8).
+  rewrite Z.land_ones by lia. reflexivity.
+Qed.
+
+Lemma run_f_run : forall tk ks d args fl, wf_desc d = true -> run_f tk ks d args fl = run tk ks d args fl.
+Proof.
+  intros tk ks d args fl H. unfold run_f, run_core, run, emit_bytes, flags_after, flags_after_e.
+  destruct (panics tk d fl); [reflexivity|]. destruct (find_kind ks (d_kind d)); [|reflexivity].
+  f_equal. apply map_ext_in. intros b Hb. apply eval_b_f_eq.
+  unfold wf_desc in H. rewrite forallb_forall in H. exact (H b Hb).
+Qed.
+
+Lemma pty_bits_nonneg : forall t, 0 <= pty_bits t.
+Proof. intros []; simpl; lia. Qed.
+
+Lemma total_bits_nonneg : forall ps, 0 <= total_bits ps.
+Proof. induction ps as [|t r IH]; simpl; [lia|]. pose proof (pty_bits_nonneg t). lia. Qed.
+
+Lemma args_of_f_eq : forall ps n, args_of_f ps n = args_of ps n.
+Proof.
+  unfold args_of_f. induction ps as [|t r IH]; intro n; [reflexivity|].
+  cbn [args_plan map args_of_p args_of]. fold (args_plan r).
+  pose proof (pty_bits_nonneg t) as Hb.
+  rewrite Z.land_ones by exact Hb.
+  destruct r as [|u r'].
+  - reflexivity.
+  - cbn [args_plan map]. fold (args_plan r'). f_equal.
+    rewrite Z.shiftr_div_pow2 by exact Hb. apply (IH (n / 2 ^ pty_bits t)).
+Qed.
+
+Lemma prog_digest_f_eq : forall tk ks d fl p, wf_desc d = true -> prog_digest_f tk ks d fl p = prog_digest tk ks d fl p.
+Proof.
+  intros tk ks d fl [[start step] k] H. unfold prog_digest_f, prog_digest.
+  apply fold_prog_ext. intros n h.
+  fold (args_of_f (d_ptys d) (Z.land n (Z.ones (total_bits (d_ptys d))))).
+  rewrite args_of_f_eq, Z.land_ones by apply total_bits_nonneg.
+  change (run_core (panics tk d fl) (find_kind ks (d_kind d)) (d_bytes d) (d_effect d)
+            (args_of (d_ptys d) (n mod 2 ^ total_bits (d_ptys d))) fl)
+    with (run_f tk ks d (args_of (d_ptys d) (n mod 2 ^ total_bits (d_ptys d))) fl).
+  now rewrite run_f_run.
+Qed.
+
+(* what the per-run tie lemma compares with the digests of the compiled code *)
+Theorem method_digests_spec : forall tk ks d states ps, wf_desc d = true ->
   method_digests tk ks d states ps = map (fun fl => map (prog_digest tk ks d fl) ps) states.
 Proof.
-  intros tk ks d states ps. unfold method_digests.
-  destruct (state_indep d) eqn:E; [|reflexivity].
-  apply map_ext. intro fl. apply map_ext. intros [[start step] k]. unfold prog_digest.
-  apply fold_prog_ext. intros n h. symmetry. apply state_indep_run. exact E.
+  intros tk ks d states ps Hwf. unfold method_digests.
+  destruct (state_indep d) eqn:E.
+  - apply map_ext. intro fl. apply map_ext. intro p. rewrite prog_digest_f_eq by exact Hwf.
+    destruct p as [[start step] k]. unfold prog_digest.
+    apply fold_prog_ext. intros n h. symmetry. apply state_indep_run. exact E.
+  - apply map_ext. intro fl. apply map_ext. intro p. now apply prog_digest_f_eq.
 Qed.
 
 (* ------------------------------------------------------------------ non-vacuity *)
